@@ -22,6 +22,7 @@ func H_C10_Crash() {
 	seg := segs[vChoose(vParam("nseg"))]
 	// pre > 0: concrete one-record transactions first, so that file ids reach two digits
 	preT := preTxs(vParam("pre"), false)
+	vConcreteArgs, vArgCounter = len(preT) > 0, 0 // many-segment configurations: concrete keys, the file order is the subject
 	symT := genTxs(vParam("profile"), vParam("ntx"), vParam("maxops"))
 	txs := append(append([][]*sOp{}, preT...), symT...)
 	keys := append(kvKeysOf(preT[:min1(len(preT))]), kvKeysOf(symT)...)
@@ -58,8 +59,16 @@ func H_C10_Crash() {
 				vFail("c10.open-b")
 				return
 			}
-			vArm()
+			// many-segment configurations: crash points are armed for the last two concrete
+			// transactions and everything after them (earlier ones repeat the small histories)
+			armFrom := 0
+			if len(preT) > 2 {
+				armFrom = len(preT) - 2
+			}
 			for i := range txs {
+				if i == armFrom {
+					vArm()
+				}
 				crashedAt = i
 				runTxs(dbB, txs[i:i+1])
 			}
